@@ -92,15 +92,16 @@ func (o *Object) clone() *Object {
 }
 
 type MapObj struct {
-	keys  []string // canonical key strings in insertion order
-	kvals map[string]Value
-	vals  map[string]Value
-	kt    types.Type
-	vt    types.Type
+	keys   []string // canonical key strings in insertion order
+	kvals  map[string]Value
+	vals   map[string]Value
+	kt     types.Type
+	vt     types.Type
+	hasSym bool // some stored key has symbolic content
 }
 
 func (m *MapObj) clone() *MapObj {
-	n := &MapObj{keys: append([]string(nil), m.keys...), kvals: map[string]Value{}, vals: map[string]Value{}, kt: m.kt, vt: m.vt}
+	n := &MapObj{keys: append([]string(nil), m.keys...), kvals: map[string]Value{}, vals: map[string]Value{}, kt: m.kt, vt: m.vt, hasSym: m.hasSym}
 	for k, v := range m.kvals {
 		n.kvals[k] = v
 	}
